@@ -221,6 +221,70 @@ theorem serve_refused_iff_exec_gate (enums : List String) (sr : SRoute) (bound :
         rw [h1] at h
         simp [isControllerEvent, List.any_append, List.any_map] at h
 
+/-! ### C12: what exactly the frameworks may differ in -/
+
+theorem bindParam_std (enums : List String) (bound : List (String × String)) (rq : Req) (pi : PInfo) :
+    bindParam enums bound rq pi = bindParamA enums (stdAccessors bound rq) pi := by
+  unfold bindParam bindParamA stdAccessors
+  by_cases hc : pi.p.isContext = true
+  · simp [hc]
+  · simp only [hc, Bool.false_eq_true, if_false]
+    by_cases hb : pi.p.passedIn = "body"
+    · simp only [hb, if_true]
+      by_cases hok : (rq.hasBody && rq.bodyOk) = true <;> simp [hok]
+    · simp only [hb, if_false]
+
+theorem bindAll_std (enums : List String) (bound : List (String × String)) (rq : Req) (infos : List PInfo) :
+    bindAll enums bound rq infos = bindAllA enums (stdAccessors bound rq) infos := by
+  induction infos with
+  | nil => rfl
+  | cons x xs ih => unfold bindAll bindAllA; rw [bindParam_std, ih]
+
+/-- `serve` is the handler on top of the faithful framework with the deny-callback -/
+theorem serveRoute_std (enums : List String) (sr : SRoute) (bound : List (String × String)) (rq : Req) :
+    serveRoute enums sr bound rq = serveRouteA enums (denyCallback rq.deny) (stdAccessors bound rq) sr := by
+  unfold serveRoute serveRouteA
+  rw [bindAll_std]
+
+/-- two frameworks agree on a request, as far as ONE route's parameters are concerned -/
+def AccessorsAgree (a₁ a₂ : Accessors) (infos : List PInfo) : Prop :=
+  (∀ pi ∈ infos, a₁.scalar pi = a₂.scalar pi ∧ a₁.multi pi = a₂.multi pi) ∧ a₁.body = a₂.body
+
+theorem bindAllA_congr (enums : List String) (a₁ a₂ : Accessors) (infos : List PInfo) (h : AccessorsAgree a₁ a₂ infos) :
+    bindAllA enums a₁ infos = bindAllA enums a₂ infos := by
+  induction infos with
+  | nil => rfl
+  | cons x xs ih =>
+    have hx := h.1 x (by simp)
+    have hrest : AccessorsAgree a₁ a₂ xs := ⟨fun pi hpi => h.1 pi (List.mem_cons_of_mem _ hpi), h.2⟩
+    unfold bindAllA
+    have : bindParamA enums a₁ x = bindParamA enums a₂ x := by
+      unfold bindParamA
+      rw [hx.1, hx.2, h.2]
+    rw [this, ih hrest]
+
+/-- **Interchangeable**: the rendered handler is one function of (callback, what the framework hands over).
+    Two engines whose accessors deliver the same raw values for a route's parameters give the same outcome —
+    same checks asked in the same order, same refusal / 422 / controller call with the same arguments — for
+    every callback.  Everything an engine can differ in is therefore an `AccessorsAgree` failure (findings
+    C12-F1, C12-F3) or a dispatch difference before the handler is reached (C12-F2, C12-F4). -/
+theorem interchangeable_of_accessors_agree (enums : List String) (cb : Callback) (a₁ a₂ : Accessors) (sr : SRoute)
+    (h : AccessorsAgree a₁ a₂ sr.infos) : serveRouteA enums cb a₁ sr = serveRouteA enums cb a₂ sr := by
+  unfold serveRouteA
+  rw [bindAllA_congr enums a₁ a₂ sr.infos h]
+
+/-- the hypothesis is not idle: an accessor that hands over the undecoded path text (fiber, finding C12-F1)
+    changes the outcome -/
+def exPathRoute : SRoute :=
+  { ctrl := "C", ctrlPath := "/c",
+    r := { opId := "Op", verb := "GET", path := "/{v}", hidden := false, deprecated := false, security := [],
+           params := [], hasReturn := false, successCode := 204, errorCodes := [] },
+    infos := [⟨⟨"v", false, "path", "v", "required", ""⟩, "string"⟩] }
+def accDecoded : Accessors := { scalar := fun _ => some "a b", multi := fun _ => [], body := none }
+def accRaw : Accessors := { scalar := fun _ => some "a%20b", multi := fun _ => [], body := none }
+example : serveRouteA [] (denyCallback []) accDecoded exPathRoute ≠ serveRouteA [] (denyCallback []) accRaw exPathRoute := by
+  decide +kernel
+
 /-! non-vacuity: a route with two alternatives, the first refused; a missing required query member -/
 def exRoute : SRoute :=
   { ctrl := "C", ctrlPath := "/c/",
